@@ -607,10 +607,31 @@ public final class Driver {
         ev.put("err", err);
     }
 
-    Map<String, Object> enc(Map<String, Object> op) {
+    static boolean isEnc(String kind) {
+        return kind.equals("enc") || kind.equals("encinto");
+    }
+
+    /**
+     * enc / encinto.  encinto: the output buffer is USED: it already holds the bytes `pre`, the first `rd` of
+     * them consumed (readerIndex = rd); the event reports the readable bytes [readerIndex, writerIndex).
+     */
+    Map<String, Object> enc(Map<String, Object> op, String kind) {
+        boolean into = kind.equals("encinto");
         Map<String, Object> ev = new LinkedHashMap<>();
-        ev.put("ev", "enc");
+        ev.put("ev", kind);
         ev.put("id", op.get("id"));
+        byte[] pre = new byte[0];
+        int rd = 0;
+        if (into) {
+            List<Object> ps = arr(op.get("pre"));
+            pre = new byte[ps.size()];
+            for (int i = 0; i < pre.length; i++) {
+                pre[i] = (byte) ((Number) ps.get(i)).intValue();
+            }
+            rd = op.get("rd") == null ? 0 : ((Number) op.get("rd")).intValue();
+            ev.put("pre", pre.length);
+            ev.put("rd", rd);
+        }
         Object inst;
         try {
             Map<String, Object> pk = pkt(str(op, "pkt"));
@@ -623,10 +644,20 @@ public final class Driver {
             return ev;
         }
         try {
-            ByteBuf.TRACE.clear();
             ByteBuf buf = Unpooled.buffer();
+            if (pre.length > 0) {
+                buf.writeBytes(pre);
+                buf.skipBytes(rd);
+            }
+            ByteBuf.TRACE.clear();
             call(inst, "encode", buf);
-            byte[] bytes = buf.written();
+            byte[] bytes;
+            if (into) {
+                bytes = new byte[buf.readableBytes()];
+                buf.getBytes(buf.readerIndex(), bytes);
+            } else {
+                bytes = buf.written();
+            }
             List<Object> prims = new ArrayList<>();
             List<Object> calcs = new ArrayList<>();
             for (Object[] t : ByteBuf.TRACE) {
@@ -641,7 +672,7 @@ public final class Driver {
             ev.put("prims", prims);
             ev.put("calcs", calcs);
         } catch (Throwable e) {
-            ev.keySet().retainAll(java.util.Arrays.asList("ev", "id"));
+            ev.keySet().retainAll(java.util.Arrays.asList("ev", "id", "pre", "rd"));
             fail(ev, "encode-raises", errinfo(e));
         }
         return ev;
@@ -707,6 +738,18 @@ public final class Driver {
         return ev;
     }
 
+    /** {"ev", "id"} (+ "pre" = length, "rd" for encinto): the head of an event written for an op that blew up */
+    static Map<String, Object> bare(Map<String, Object> op, String kind) {
+        Map<String, Object> ev = new LinkedHashMap<>();
+        ev.put("ev", kind);
+        ev.put("id", op.get("id"));
+        if (kind.equals("encinto")) {
+            ev.put("pre", arr(op.get("pre")).size());
+            ev.put("rd", op.get("rd") == null ? 0 : op.get("rd"));
+        }
+        return ev;
+    }
+
     public static void main(String[] args) throws Exception {
         PrintStream real = new PrintStream(new FileOutputStream(java.io.FileDescriptor.out), false, "US-ASCII");
         // emitted code must not disturb the event stream
@@ -731,21 +774,17 @@ public final class Driver {
             String kind = str(op, "op");
             Map<String, Object> ev;
             try {
-                ev = kind.equals("enc") ? d.enc(op) : d.dec(op, kind);
+                ev = isEnc(kind) ? d.enc(op, kind) : d.dec(op, kind);
             } catch (Throwable t) {           // e.g. a second StackOverflowError / OutOfMemoryError while reporting
-                ev = new LinkedHashMap<>();
-                ev.put("ev", kind);
-                ev.put("id", op.get("id"));
-                fail(ev, kind.equals("enc") ? "encode-raises" : "decode-raises", errinfo(t));
+                ev = bare(op, kind);
+                fail(ev, isEnc(kind) ? "encode-raises" : "decode-raises", errinfo(t));
             }
             String line;
             try {
                 line = Json.print(ev);
             } catch (Throwable t) {
-                Map<String, Object> e2 = new LinkedHashMap<>();
-                e2.put("ev", kind);
-                e2.put("id", op.get("id"));
-                fail(e2, kind.equals("enc") ? "encode-raises" : "read-raises", errinfo(t));
+                Map<String, Object> e2 = bare(op, kind);
+                fail(e2, isEnc(kind) ? "encode-raises" : "read-raises", errinfo(t));
                 line = Json.print(e2);
             }
             real.println(line);
